@@ -150,7 +150,7 @@ ENC_ASSUME = [
 ]
 PROPS["C05"] = {
     "level": "model_checking", "assumptions": ENC_ASSUME,
-    "claim": "for every (k,r,N1,seed) of the grid and every pollution prefix (6 histories of other sessions, incl. a rejected configuration, an ML-decoding session and a displaced PRNG state): the parity-check matrix walked by rows and by columns in an encoder and in a decoder session equals the RFC 5170 reference entry by entry, and the encoder's codeword satisfies every reference equation (behavioural H); the interleaved case is C12. Histories: every sequence of 6 (thorough 7) LDPC sessions over 4 (5) codes with n = 9, 12, 4097, 4500 (400), each sequence in its own process, encoder/decoder alternating, with and without overlap of consecutive sessions: every matrix equals the reference of its own parameters",
+    "claim": "for every (k,r,N1,seed) of the grid and every pollution prefix (6 histories of other sessions, incl. a rejected configuration, an ML-decoding session and a displaced PRNG state): the parity-check matrix walked by rows and by columns in an encoder and in a decoder session equals the RFC 5170 reference entry by entry, and the encoder's codeword satisfies every reference equation (behavioural H); the interleaved case is C12. Histories: every sequence of 6 (thorough 7) LDPC sessions over 4 (5) codes with n = 9, 12, 4097, 4500 (400), each sequence in its own process, encoder/decoder alternating, with and without overlap of consecutive sessions: every matrix equals the reference of its own parameters; and every sequence of 4 (5) steps over 3 measured LDPC codes and 8 other activities (Reed-Solomon 2^8 / 2^m and 2D sessions, two rejected LDPC configurations, an ML decoding that displaces the PRNG, a session left open)",
     "technique": "exhaustive enumeration of a parameter grid x history prefixes on the real code against an independent RFC 5170 reference model",
     "rule": "point = (k,r,N1,seed,prefix); states = points, transitions = build_repair_symbol calls; all points distinct",
     "bounds": {"quick": "k in {1..12,16,20,32}+3 large points, r in {3..12,16,32}, N1 3..min(r,10), seeds {1,2,2^31-2}, 6 prefixes; k=10000/20000 blocks (structural comparison) with 6 seeds; lengths 1..40 x alignments 1..7 on two small codes", "thorough": "k up to 1000, r up to 500, 7 seeds, 6 prefixes (2 for the largest); 117 further seeds on every shape k<=12, r<=12, N1<=7 (prefix rotating); k=10000/20000 blocks with 40 seeds"},
@@ -170,11 +170,12 @@ PROPS["C06"] = {
 }
 PROPS["C15"] = {
     "level": "model_checking", "assumptions": ENC_ASSUME + ["when the claim is true, every source column of the reference matrix has even weight (summing all equations cancels the staircase), so zero on the identity payload implies zero for all data by linearity"],
-    "claim": "for every (k,r,N1,seed) of the grid: encoder and decoder sessions give the same IS_LAST_SYMBOL_NULL answer; whenever it is true every source column of the RFC matrix has even weight and the encoder's last repair symbol on the identity+dense payload is all zero",
+    "claim": "for every (k,r,N1,seed) of the grid: encoder and decoder sessions give the same IS_LAST_SYMBOL_NULL answer; whenever it is true every source column of the RFC matrix has even weight and the encoder's last repair symbol on the identity+dense payload is all zero; the answer is asked again (twice) after encoding; session histories (h_enc hist mode): in every sequence of sessions and other activities each LDPC session gives the answer a pristine process gives for the same code and role",
     "technique": "exhaustive enumeration of a parameter grid on the real code against the RFC 5170 reference model",
     "rule": "point = (k,r,N1,seed); non-trivial points are those where the claim is true (counted as null_last_claims)",
     "bounds": {"quick": "k 1..12, r 3..10, N1 3..min(r,10), seeds 1..5, plus high-rate points", "thorough": "k 1..32, r 3..16, seeds 1..50,16807,2^31-2, plus high-rate points up to k=400"},
-    "runs": [{"name": "ldpc-trk", "src": "h_enc.c", "variant": "trk", "args": ["--mode", "ldpc"]}],
+    "runs": [{"name": "ldpc-trk", "src": "h_enc.c", "variant": "trk", "args": ["--mode", "ldpc"]},
+             {"name": "hist-trk", "src": "h_enc.c", "variant": "trk", "args": ["--mode", "hist"]}],
 }
 PROPS["C02"]["runs"] += [{"name": "rsgen-trk", "src": "h_enc.c", "variant": "trk", "args": ["--mode", "rs"]}]
 for _p in ("C01", "C02", "C10"):
